@@ -140,7 +140,7 @@ pub enum Mode {
 #[derive(Clone, Debug, Serialize, Deserialize, PartialEq)]
 pub struct Scenario {
     pub cfg: SimCfg,
-    /// historical (O2 guard, removed once the defect was fixed); always false in generated scenarios
+    /// historical (guards for O2 and the late-FIN reset, removed once both were fixed in /repo); always false
     pub guarded: bool,
     pub hosts: usize,
     pub conns: Vec<ConnSpec>,
@@ -213,6 +213,46 @@ pub fn o2_exposed(sc: &Scenario) -> Vec<(usize, usize)> {
     out
 }
 
+pub const KF_LATE_FIN: &str = "late-fin-answered-with-rst";
+
+/// Ends (conn, side) that may drop their stream while the only unread thing of the inbound
+/// direction is the peer's FIN *and that FIN may still be on its way*: the host then has no entry for
+/// the late FIN any more and answers it with a RST, which resets the peer's stream (known finding).
+pub fn late_fin_exposed(sc: &Scenario) -> Vec<(usize, usize)> {
+    let mut out = Vec::new();
+    // (a partition in the script does not help: the run may be over before it is imposed)
+    let lat = sc.cfg.max_latency_ticks();
+    let hold = sc.script.iter().any(|(_, a)| matches!(a, LinkAct::Hold(..) | LinkAct::Partition(..) | LinkAct::PartitionOneway(..)));
+    for (ci, c) in sc.conns.iter().enumerate() {
+        for side in 0..2 {
+            let (e, p) = (c.end(side), c.end(1 - side));
+            // the peer must close its write side on its own (a FIN sent only by the peer's final drop
+            // comes after the peer saw this end's EOF, i.e. after this end is gone: harmless)
+            if e.keep || p.fin == Fin::None {
+                continue;
+            }
+            let may_skip_eof = match e.drain {
+                None => {
+                    // a reader that stops: exposed when it can have consumed everything the peer writes
+                    let can_read: u64 = e.rops.iter().map(|o| if let ROp::Read { buf } = o { *buf as u64 } else { 0 }).sum();
+                    let must_write: u64 = p.wops.iter().map(|o| if let WOp::Write { len, how } = o { if *how == WHow::Try { 0 } else { *len as u64 } } else { 0 }).sum();
+                    can_read >= must_write
+                }
+                Some(_) => e.drain_mode == DrainMode::Exact,
+            };
+            if !may_skip_eof {
+                continue;
+            }
+            // an Exact reader stops only after the peer's FIN was sent; a linger of lat+2 ticks lets it arrive
+            let settled = matches!(sc.mode, Mode::Latency) && !hold && e.drain.is_some() && e.drain_mode == DrainMode::Exact && e.linger as u64 >= lat + 2;
+            if !settled {
+                out.push((ci, side));
+            }
+        }
+    }
+    out
+}
+
 const LENS: [u16; 13] = [0, 1, 1, 2, 3, 7, 16, 64, 100, 255, 256, 512, 1024];
 const BUFS: [u16; 12] = [0, 1, 2, 3, 5, 8, 16, 64, 100, 256, 1024, 4096];
 
@@ -253,7 +293,7 @@ fn gen_end(rng: &mut Rng, small: bool, lat: u64) -> EndSpec {
 }
 
 fn gen_scenario(rng: &mut Rng) -> Scenario {
-    // (O2 is fixed in /repo: nothing is steered away from a FIN that reaches a full receive queue)
+    // (O2 and the late-FIN reset are fixed in /repo: nothing is steered away from either trigger)
     let guarded = false;
     let mut cfg = SimCfg::gen(rng, &CfgProfile { latency_range: true, random_failures: false, small_capacities: true, max_tick_ms: 20, max_latency_ticks: 12 });
     cfg.fail_rate_pm = 0;
@@ -589,7 +629,7 @@ fn judge_read_err(sh: &Sh, c: usize, dir: usize, e: &io::Error, who: &str) {
     if !allowed {
         sh.violate(
             "SpuriousError",
-            format!("{who}: read failed with {} ({e}) although no partition was imposed and neither end dropped its read side before end-of-file", kind_name(e.kind())),
+            format!("{who}: read failed with {} ({e}) although no partition was imposed and no end dropped its read side with inbound data unread or still to come", kind_name(e.kind())),
         );
     }
 }
@@ -739,7 +779,7 @@ fn judge_write_err(sh: &Sh, c: usize, e: &io::Error, who: &str, what: &str) {
     if !allowed {
         sh.violate(
             "SpuriousError",
-            format!("{who}: {what} failed with {} ({e}) although no partition was imposed and neither end dropped its read side before end-of-file", kind_name(e.kind())),
+            format!("{who}: {what} failed with {} ({e}) although no partition was imposed and no end dropped its read side with inbound data unread or still to come", kind_name(e.kind())),
         );
     }
 }
@@ -1411,7 +1451,9 @@ impl Property for C02 {
         vec![
             "liveness is judged only for connections on which no end drops its read side before it observed end-of-file (otherwise a reset may legitimately cut the stream short), without any partition, with every hold released".into(),
             "a connection refused although no partition was imposed is reported as a harness error here (pairing/refusal is C12's subject)".into(),
-            "no generator guard: the former known finding O2 (FIN reaching a full receive queue) is fixed in /repo (650a8d3); the probe fin_arrived_queue_full counts how often the trigger is reached".into(),
+            "the former known finding O2 (FIN reaching a full receive queue) is fixed in /repo (650a8d3) and no longer avoided; the probe fin_arrived_queue_full counts how often the trigger is reached".into(),
+            "a drop of the read side counts as graceful when EOF was observed OR when the peer has closed its write side and every byte it wrote was consumed (only its FIN is unread, queued or still in flight)".into(),
+            "no generator guard: the finding late-fin-answered-with-rst (an end that never reads the EOF drops its stream while the peer's FIN is still in flight) is fixed in /repo (601df31); the probe dropped_with_only_the_fin_unread counts the situation".into(),
         ]
     }
     fn budget(tier: Tier) -> u64 {
@@ -1574,8 +1616,9 @@ impl Property for C02 {
             })
             .collect();
         format!(
-            "{}{} {} cap={} lat={}..{}us tick={}us script={:?} {}",
+            "{}{}{} {} cap={} lat={}..{}us tick={}us script={:?} {}",
             if ex.is_empty() { "" } else { "O2-EXPOSED " },
+            if late_fin_exposed(sc).is_empty() { "" } else { "LATE-FIN-EXPOSED " },
             if sc.guarded { "G" } else { "U" },
             match &sc.mode {
                 Mode::Latency => "latency".to_string(),
@@ -1595,6 +1638,9 @@ impl Property for C02 {
             // O2: a FIN that becomes deliverable while the reader's receive queue holds tcp_capacity
             // unread data segments stays in the reorder buffer for good: all bytes arrive, EOF never does
             KF_O2 => v.class == "NoEof" && parse_cd(&v.message).map(|cd| o2_exposed(sc).contains(&cd)).unwrap_or(false),
+            // a FIN that arrives after its receiver dropped the stream (everything consumed, graceful) is
+            // answered with a RST: the sender's stream is reset instead of ending with EOF
+            KF_LATE_FIN => v.class == "SpuriousError" && !late_fin_exposed(sc).is_empty(),
             _ => false,
         }
     }
